@@ -5,7 +5,6 @@ package c06
 import (
 	"bytes"
 	"errors"
-	"sync/atomic"
 	"fmt"
 	"log"
 	"os"
@@ -13,6 +12,7 @@ import (
 	"runtime"
 	"strconv"
 	"strings"
+	"sync/atomic"
 	"time"
 
 	"go.uber.org/zap"
@@ -353,6 +353,27 @@ func runCall(f func()) outcome {
 	}
 }
 
+// routes are the ways the options (development mode, terminal hooks) reach the logger: the rule is the
+// same whichever way the logger was put together.
+var routes = []string{"New(core, options)", "New(core).WithOptions(options)", "New(core).Sugar().WithOptions(options).Desugar()", "Config{Development}.Build(options)", "Config{Development, DisableStacktrace}.Build(options)"}
+
+func construct(route string, core zapcore.Core, dev bool, opts []zap.Option) *zap.Logger {
+	switch route {
+	case routes[1]:
+		return zap.New(core).WithOptions(opts...)
+	case routes[2]:
+		return zap.New(core).Sugar().WithOptions(opts...).Desugar()
+	case routes[3], routes[4]:
+		cfg := zap.Config{Level: zap.NewAtomicLevelAt(zapcore.DebugLevel), Development: dev, DisableStacktrace: route == routes[4], DisableCaller: true, Encoding: "json", EncoderConfig: zap.NewProductionEncoderConfig()}
+		lg, err := cfg.Build(append(append([]zap.Option{}, opts...), zap.WrapCore(func(zapcore.Core) zapcore.Core { return core }))...)
+		if err != nil {
+			panic("c06: Config.Build: " + err.Error())
+		}
+		return lg
+	}
+	return zap.New(core, opts...)
+}
+
 func inProcess(r *ev.Run) {
 	fes := frontEnds()
 	type cell struct {
@@ -383,7 +404,19 @@ func inProcess(r *ev.Run) {
 		pick = append(pick, i)
 	}
 	r.Exhaustive(true) // the in-process product is enumerated completely in both tiers
+	// whatever a cell started (background writer, flush goroutine) is stopped before the next cell,
+	// on every path out of the cell
+	var cleanup func()
+	defer func() {
+		if cleanup != nil {
+			cleanup()
+		}
+	}()
 	for _, ci := range pick {
+		if cleanup != nil {
+			cleanup()
+			cleanup = nil
+		}
 		c := cells[ci]
 		id := fmt.Sprintf("c06/in/%d", ci)
 		if !r.Want(id) {
@@ -395,10 +428,19 @@ func inProcess(r *ev.Run) {
 			continue
 		}
 		b := buildCore(c.core, func(s *rec.Sink) zapcore.WriteSyncer { return s })
+		cleanup = func() {
+			if b.buffered != nil {
+				_ = b.buffered.Stop()
+			}
+			if b.stop != nil {
+				b.stop()
+			}
+		}
 		var snaps []snapshot
 		var seenByHook []string
 		opts := []zap.Option{zap.ErrorOutput(zapcore.AddSync(&rec.Sink{}))}
-		if c.dev {
+		route := routes[ci%len(routes)]
+		if c.dev && !strings.HasPrefix(route, "Config") {
 			opts = append(opts, zap.Development())
 		}
 		var hk zapcore.CheckWriteHook
@@ -420,7 +462,8 @@ func inProcess(r *ev.Run) {
 		if hk != nil {
 			opts = append(opts, zap.WithPanicHook(hk), zap.WithFatalHook(hk))
 		}
-		lg := zap.New(b.core, opts...)
+		lg := construct(route, b.core, c.dev, opts)
+		r.SetAdd("construction_routes", route)
 		msg := mkMsg(c.msg, fmt.Sprintf("final-%d", ci))
 		o := runCall(func() { c.fe.call(lg, c.lvl, msg) })
 		r.SetAdd("message_kinds", c.msg)
@@ -430,7 +473,7 @@ func inProcess(r *ev.Run) {
 		if len(pick) < 5 || ci%977 == 0 {
 			r.Sample(map[string]any{"front_end": c.fe.name, "level": c.lvl.String(), "core": c.core, "hook": c.hook, "development": c.dev})
 		}
-		wit := map[string]any{"front_end": c.fe.name, "level": c.lvl.String(), "core": c.core, "hook": c.hook, "development": c.dev, "message_kind": c.msg, "outcome": fmt.Sprintf("%+v", o)}
+		wit := map[string]any{"front_end": c.fe.name, "level": c.lvl.String(), "core": c.core, "hook": c.hook, "development": c.dev, "constructed_by": route, "message_kind": c.msg, "outcome": fmt.Sprintf("%+v", o)}
 		bad := func(class, f string, a ...any) {
 			r.Violate(ev.Violation{Case: id, Class: class, Msg: fmt.Sprintf("%s at %v, core=%s hook=%s development=%v message=%s: ", c.fe.name, c.lvl, c.core, c.hook, c.dev, c.msg) + fmt.Sprintf(f, a...), Witness: wit})
 		}
@@ -564,7 +607,11 @@ func fatalChild(args []string) {
 	case "OnFatal(WriteThenNoop)":
 		opts = append(opts, zap.OnFatal(zapcore.WriteThenNoop))
 	}
-	lg := zap.New(b.core, opts...)
+	route := routes[0]
+	if len(args) > 6 && args[6] != "-" {
+		route = args[6]
+	}
+	lg := construct(route, b.core, false, opts)
 	fe := frontEnds()[feIdx]
 	fe.call(lg, zapcore.FatalLevel, mkMsg(mkind, "fatal-final-message"))
 	// reaching this line means the process survived the Fatal call
@@ -608,7 +655,8 @@ func outOfProcess(r *ev.Run) {
 		}
 		dir := filepath.Join(ev.WorkDir(), fmt.Sprintf("c06-%d", ci))
 		_ = os.MkdirAll(dir, 0o755)
-		oc := mon.RunRaw(bin, []string{"child", "C06", "fatal", fmt.Sprint(c.fe), c.core, c.hook, dir, c.msg, "-"}, 60*time.Second)
+		oc := mon.RunRaw(bin, []string{"child", "C06", "fatal", fmt.Sprint(c.fe), c.core, c.hook, dir, c.msg, routes[ci%len(routes)]}, 60*time.Second)
+		r.SetAdd("construction_routes", routes[ci%len(routes)])
 		r.Eval(1)
 		r.Count("children", 1)
 		r.SetAdd("exit_statuses", fmt.Sprint(oc.ExitCode))
